@@ -80,6 +80,48 @@ func ruleURISurrogate(c *Ctx, r *R) {
 		if !leads {
 			continue
 		}
+		// a predicate of the package over one code unit that compares it with both bounds (isTrailSurrogate(unit))
+		if cond, _ := normBool(iff.Cond); cond != nil {
+			if pc, ok := cond.(*ssa.Call); ok {
+				if cal := pc.Call.StaticCallee(); cal != nil && cal.Pkg == enc.Pkg && len(cal.Params) == 1 && len(pc.Call.Args) == 1 && cal.Blocks != nil {
+					lower, upper := false, false
+					for _, pb := range cal.Blocks {
+						for _, pi := range pb.Instrs {
+							bo, ok := pi.(*ssa.BinOp)
+							if !ok || bo.Op == token.EQL || bo.Op == token.NEQ {
+								continue
+							}
+							for _, pair := range [][2]ssa.Value{{bo.X, bo.Y}, {bo.Y, bo.X}} {
+								k, isK := constInt(pair[1])
+								v := pair[0]
+								for i := 0; i < 3; i++ {
+									if cv, ok := v.(*ssa.Convert); ok {
+										v = cv.X
+									}
+								}
+								if !isK || v != ssa.Value(cal.Params[0]) {
+									continue
+								}
+								lower = lower || k == 0xDC00 || k == 0xDBFF+1
+								upper = upper || k == 0xDFFF || k == 0xE000
+							}
+						}
+					}
+					if lower && upper {
+						v := pc.Call.Args[0]
+						for i := 0; i < 3; i++ {
+							if cv, ok := v.(*ssa.Convert); ok {
+								v = cv.X
+							}
+						}
+						if tested[v] == nil {
+							tested[v] = map[int64]bool{}
+						}
+						tested[v][0xDC00], tested[v][0xDFFF] = true, true
+					}
+				}
+			}
+		}
 		for _, cmp := range comparisonsOf(iff.Cond, 0) {
 			for _, pair := range [][2]ssa.Value{{cmp.X, cmp.Y}, {cmp.Y, cmp.X}} {
 				k, ok := constInt(pair[1])
